@@ -331,6 +331,32 @@ def c_oriented(rng):
     # intersection results are the same before and after (valid polygons: holes wound opposite to their shell, which
     # is what the generator builds; with a hole wound like its shell the non-zero winding rule itself depends on the
     # orientation, so nothing is compared there)
+    if rng.random() < 0.3:
+        # a funnel whose neck passes through a small box: no vertex in the box, no box corner in the polygon, the
+        # polygon sticks out of the box on every side - only the edge-against-box-side tests can see the meeting,
+        # and they must see it whichever way round the ring is stored
+        ox, oy = float(rng.randint(-3, 3)), float(rng.randint(-3, 3))
+        ring = [0.0, -5.0, 2.0, 5.0, 10.0, 6.0, -10.0, 6.0, -2.0, 5.0, 0.0, -5.0]
+        if rng.random() < 0.5:
+            ring = [c for p_ in list(zip(ring[0::2], ring[1::2]))[::-1] for c in p_]
+        if rng.random() < 0.5:
+            ring = [c for x_, y_ in zip(ring[0::2], ring[1::2]) for c in (y_, x_)]        # transposed: horizontal funnel
+            fb = (-1.0, -1.5, 1.0, 1.5)
+        else:
+            fb = (-1.5, -1.0, 1.5, 1.0)
+        ring = [c + (ox if k % 2 == 0 else oy) for k, c in enumerate(ring)]
+        fb = (fb[0] + ox, fb[1] + oy, fb[2] + ox, fb[3] + oy)
+        fel = [ring] if kind == 'polygon' else [[ring]]
+        fcs = gen.Case(kind, [fel], [], gen.pick_dtype(rng, [fel]))
+        try:
+            fo = fcs.arr.oriented()
+            b_, a_ = bool(fcs.arr.intersects_bounds(fb)[0]), bool(fo.intersects_bounds(fb)[0])
+            e_ = bool(oracle.intersects_bounds(kind, fel, oracle.norm_box(fb)))
+            if b_ != a_ or a_ != e_:
+                out.append(V(f'array.oriented/{kind}/intersection-result-changed', f'funnel, box {fb}: before {b_} after {a_} '
+                             f'expected {e_}', dict(fcs.recipe, box=fb)))
+        except Exception as e:
+            out.append(V(f'array.oriented/{kind}/intersects-after-oriented-raises-{type(e).__name__}', f'{e}', fcs.recipe))
     try:
         bx = gen.box(rng)
         if rng.random() < 0.5:
@@ -450,7 +476,36 @@ def _boxes_for(kind, cs, rng):
 def c_intersects_bounds(rng):
     kind = rng.choice(gen.KINDS)
     cs = gen.case(kind, rng)
-    for bx in _boxes_for(kind, cs, rng):
+    boxes = _boxes_for(kind, cs, rng)
+    if kind in ('multipoint', 'multiline', 'multipolygon') and rng.random() < 0.35:
+        # an element made of two parts far apart, and a band through the gap that spans the element's whole extent
+        # in the other direction: the element's bounding box lies inside the band's slab, yet nothing is in the band
+        x0, y0 = float(rng.randint(-4, 4)), float(rng.randint(-4, 4))
+        w, gap = float(rng.randint(1, 3)), float(rng.randint(2, 4))
+        horizontal = rng.random() < 0.5
+
+        def part(dx, dy):
+            ax, ay = x0 + dx, y0 + dy
+            if kind == 'multipoint':
+                return [ax, ay, ax + w, ay]
+            if kind == 'multiline':
+                return [ax, ay, ax + w, ay] if horizontal else [ax, ay, ax, ay + w]
+            return [gen.rect_ring(ax, ay, ax + w, ay + 1.0)]
+        far = (0.0, gap + 1.0) if horizontal else (gap + w, 0.0)
+        if kind == 'multipoint':
+            el = part(0.0, 0.0) + part(*far)
+        else:
+            el = [part(0.0, 0.0), part(*far)]
+        els = list(cs.recipe['elements']) + [el]
+        cs = gen.Case(kind, els, [], gen.pick_dtype(rng, els))
+        fc = oracle.flat_coords(kind, el)
+        lo_x, hi_x, lo_y, hi_y = min(fc[0::2]), max(fc[0::2]), min(fc[1::2]), max(fc[1::2])
+        if horizontal:
+            band = (lo_x - 1.0, y0 + 1.25, hi_x + 1.0, y0 + gap + 0.75)
+        else:
+            band = (x0 + w + 0.25, lo_y - 1.0, x0 + gap + w - 0.25, hi_y + 1.0)
+        boxes = [band] + boxes[:2]
+    for bx in boxes:
         out = _check_box(kind, cs, bx, rng)
         if out:
             return out
@@ -582,6 +637,40 @@ def c_point_intersects_special(rng):
             out.append(V(f'pointarray.intersects-special/{skind}/inds-form', f'inds {inds.tolist()}',
                          {'kind': 'point', 'elements': cand, 'steps': []}, shape=[skind, shape_el]))
     return out
+
+
+@check(('C02',), 'point.intersects-mixed-subtypes')
+def c_point_intersects_mixed(rng):
+    """point against point where the two sides store their coordinates differently (float64 / float32 / int64 / int32,
+    or +0.0 against -0.0): intersection is a matter of coordinate values, in the scalar, array and positions forms"""
+    grid = [[float(x), float(y)] for x in (-1, 0, 2) for y in (0, 1)]
+    pts = [list(rng.choice(grid)) for _ in range(rng.randint(1, 5))]
+    d1 = rng.choice(['float64', 'float32', 'int64', 'int32'])
+    d2 = rng.choice(['float64', 'float32', 'int64', 'int32'])
+    q = list(rng.choice(pts)) if rng.random() < 0.7 else list(rng.choice(grid))
+    if d2.startswith('float') and rng.random() < 0.4:
+        q = [-0.0 if c == 0.0 else c for c in q]         # the same number, another bit pattern
+    arr = gen.build('point', pts, d1)
+    shape = gen.scalar_cls_of('point')(np.asarray(q, dtype=d2))
+    exp = [p[0] == q[0] and p[1] == q[1] for p in pts]
+    recipe = {'kind': 'point', 'elements': pts, 'steps': [], 'dtype': d1, 'query': q, 'query_dtype': d2}
+    tag = 'same-subtype' if d1 == d2 else 'mixed'
+    got = [bool(g) for g in arr.intersects(shape)]
+    if got != exp:
+        return [V(f'point.intersects-mixed/{tag}/array-form', f'{d1} points {pts} against {d2} point {q}: got {got} expected {exp}', recipe)]
+    perm = list(range(len(pts)))
+    rng.shuffle(perm)
+    gi = [bool(g) for g in arr.intersects(shape, np.array(perm, dtype='int64'))]
+    if gi != [exp[i] for i in perm]:
+        return [V(f'point.intersects-mixed/{tag}/inds-form', f'{d1} points {pts} against {d2} point {q} inds {perm}', recipe)]
+    for i, p in enumerate(pts):
+        sc = bool(arr[i].intersects(shape))
+        if sc != exp[i]:
+            return [V(f'point.intersects-mixed/{tag}/scalar-form', f'{d1} point {p} against {d2} point {q}: scalar {sc} expected {exp[i]}', recipe)]
+        back = bool(shape.intersects(arr[i]))
+        if back != exp[i]:
+            return [V(f'point.intersects-mixed/{tag}/scalar-form-swapped', f'{d2} point {q} against {d1} point {p}: scalar {back} expected {exp[i]}', recipe)]
+    return []
 
 
 @check(('C02', 'C05'), 'pointarray.intersects-near-points')
